@@ -111,6 +111,96 @@ func changedSections(a, b string) string {
 	return strings.Join(out, "+")
 }
 
+func storeFails(end string) bool { return end == "retbig" || end == "retmax" }
+
+// entries of one section of a protected observation, by account name
+func sectionEntries(obs, tag string) map[string]string {
+	m := map[string]string{}
+	i := strings.Index(obs, tag+"[")
+	if i < 0 {
+		return m
+	}
+	j := strings.Index(obs[i:], "]")
+	for _, e := range strings.Split(obs[i+2:i+j], ";") {
+		if e == "" {
+			continue
+		}
+		k := strings.IndexAny(e, ":=")
+		if tag == "L" {
+			k = -1
+		}
+		if k < 0 {
+			m[e] = e
+		} else {
+			m[e[:k]] = e
+		}
+	}
+	return m
+}
+
+// names whose entry differs between two observations in one section
+func diffNames(a, b, tag string) []string {
+	ma, mb := sectionEntries(a, tag), sectionEntries(b, tag)
+	seen := map[string]bool{}
+	var out []string
+	for n, e := range ma {
+		if mb[n] != e && !seen[n] {
+			seen[n] = true
+			out = append(out, n)
+		}
+	}
+	for n, e := range mb {
+		if ma[n] != e && !seen[n] {
+			seen[n] = true
+			out = append(out, n)
+		}
+	}
+	sort.Strings(out)
+	return out
+}
+
+func subsetOf(names []string, allowed ...string) bool {
+	for _, n := range names {
+		ok := false
+		for _, a := range allowed {
+			if n == a {
+				ok = true
+			}
+		}
+		if !ok {
+			return false
+		}
+	}
+	return true
+}
+
+// the signature of the recorded ErrCodeStoreOutOfGas defect: the frame left a NEW account with a nonce and
+// without code (the deposit failed after everything else was kept). Anything a store-failing CREATE leaves
+// without this signature is a different violation and gets its own key.
+func codestoreSignature(entry, exit string) bool {
+	ea, xa := sectionEntries(entry, "A"), sectionEntries(exit, "A")
+	for n, e := range xa {
+		if _, had := ea[n]; had {
+			continue
+		}
+		f := strings.Split(e, ":")
+		if len(f) == 5 && f[1] != "0" && f[2] == "-" {
+			return true
+		}
+	}
+	return false
+}
+
+func failClass(end, entry, exit string) string {
+	if !storeFails(end) {
+		return end
+	}
+	if codestoreSignature(entry, exit) {
+		return "codestore-oog"
+	}
+	return end + ":unexplained"
+}
+
 func hasEnding(f *frame, end string, createOnly bool) bool {
 	for _, a := range f.acts {
 		switch a.kind {
@@ -151,14 +241,29 @@ func (p *probeState) begin(tx *txn) {
 	p.walk(tx.body, -1, false)
 }
 
+// a violation is printed (and flushed) the moment its class is first seen, not at the end of the run
+var printedKeys = map[string]bool{}
+
+func emitViolation(v violation) {
+	if printedKeys[v.Key] {
+		return
+	}
+	printedKeys[v.Key] = true
+	b, _ := json.Marshal(v)
+	fmt.Println("VIOL " + string(b))
+	os.Stdout.Sync()
+}
+
 func (p *probeState) report(key, desc string) {
 	for _, v := range p.viols {
 		if v.Key == key {
 			return // one witness per class and probe run is enough
 		}
 	}
-	p.viols = append(p.viols, violation{Key: key, Desc: desc, Replay: map[string]interface{}{
-		"prefix": append([]string{}, p.prefix...), "ops": []string{p.tx.line()}}})
+	v := violation{Key: key, Desc: desc, Replay: map[string]interface{}{
+		"prefix": append([]string{}, p.prefix...), "ops": []string{p.tx.line()}}}
+	p.viols = append(p.viols, v)
+	emitViolation(v)
 }
 
 func (p *probeState) onPre(id int) {
@@ -241,7 +346,22 @@ func (p *probeState) onExit(id int, ok bool, dump string) {
 			if cls == "" {
 				cls = "other"
 			}
-			p.report("static-frame:"+cls+":"+changedSections(ref, now), fmt.Sprintf("frame %d (%s) inside a STATICCALL changed the state: before %s after %s", id, frameDesc(ni.a), ref, now))
+			// the recorded defects explain only certain differences; anything beyond them is a new class
+			switch cls {
+			case "authcall": // authority nonce bump (b30) and, with value, sponsor -> callee balance movement
+				if !subsetOf(diffNames(ref, now, "A"), "b30") || len(diffNames(ref, now, "M")) > 0 || len(diffNames(ref, now, "L")) > 0 {
+					cls += ":unexplained"
+				}
+			case "stakefamily": // balance and stake of the miner account b23
+				if len(diffNames(ref, now, "A")) > 0 || !subsetOf(diffNames(ref, now, "B"), "b23") || !subsetOf(diffNames(ref, now, "M"), "b23") || len(diffNames(ref, now, "L")) > 0 {
+					cls += ":unexplained"
+				}
+			}
+			key := "static-frame:" + cls + ":" + changedSections(ref, now)
+			if cls == "authcall" || cls == "stakefamily" {
+				key = "static-frame:" + cls // fully explained by the recorded defect (signature checked above)
+			}
+			p.report(key, fmt.Sprintf("frame %d (%s) inside a STATICCALL changed the state: before %s after %s", id, frameDesc(ni.a), ref, now))
 		}
 		return
 	}
@@ -256,8 +376,13 @@ func (p *probeState) onExit(id int, ok bool, dump string) {
 			p.report("pre-snapshot-effect:"+frameDesc(ni.a), fmt.Sprintf("frame %d (%s) changed more than one nonce before taking its snapshot: %s -> %s", id, frameDesc(ni.a), pf.atPre, pf.entry))
 		}
 	}
-	if !ok && pf.hasEntry && now != pf.entry {
-		p.report("failed-frame:"+frameDesc(ni.a)+":"+ni.a.body.end,
+	if !ok && pf.hasEntry && now != pf.entry && !p.h.flags.p002 && len(diffNames(pf.entry, now, "A")) == 0 &&
+		len(diffNames(pf.entry, now, "L")) == 0 && len(diffNames(pf.entry, now, "M")) == 0 {
+		// historical heights: before Proposal002 AddFT/SubFT write balances without a journal entry
+		p.report("pre002:balances-not-journaled", fmt.Sprintf("frame %d (%s, ending %s) failed, balances were not restored (height %d, before Proposal002): at entry %s at exit %s",
+			id, frameDesc(ni.a), ni.a.body.end, blockHeight, pf.entry, now))
+	} else if !ok && pf.hasEntry && now != pf.entry {
+		p.report("failed-frame:"+frameDesc(ni.a)+":"+failClass(ni.a.body.end, pf.entry, now),
 			fmt.Sprintf("frame %d (%s, ending %s) failed but left a trace: at entry %s at exit %s", id, frameDesc(ni.a), ni.a.body.end, pf.entry, now))
 	}
 }
@@ -336,8 +461,11 @@ func (p *probeState) rootExit(tx *txn, ok bool, dump string) {
 	if pf.hasEntry && ((!tx.create && pf.entry != pf.atPre) || (tx.create && !onlyNonceBump(pf.atPre, pf.entry))) {
 		p.report("pre-snapshot-effect:"+kind, fmt.Sprintf("outermost frame (%s) changed the state before taking its snapshot: %s -> %s", kind, pf.atPre, pf.entry))
 	}
-	if now := protectedPart(dump); !ok && pf.hasEntry && now != pf.entry {
-		p.report("failed-frame:"+kind+":"+tx.body.end,
+	if now := protectedPart(dump); !ok && pf.hasEntry && now != pf.entry && !p.h.flags.p002 && len(diffNames(pf.entry, now, "A")) == 0 &&
+		len(diffNames(pf.entry, now, "L")) == 0 {
+		p.report("pre002:balances-not-journaled", fmt.Sprintf("outermost frame (%s) failed, balances were not restored (height %d, before Proposal002): at entry %s at exit %s", kind, blockHeight, pf.entry, now))
+	} else if !ok && pf.hasEntry && now != pf.entry {
+		p.report("failed-frame:"+kind+":"+failClass(tx.body.end, pf.entry, now),
 			fmt.Sprintf("outermost frame (%s, ending %s) failed but left a trace: at entry %s at exit %s", kind, tx.body.end, pf.entry, now))
 	}
 }
@@ -406,14 +534,14 @@ func (p *probeState) end(tx *txn, res txResult) {
 		if !p.h.cfg.p013 {
 			cfg = "pre013"
 		}
-		if (tx.create && tx.body.end == "retbig") || hasEnding(tx.body, "retbig", true) {
+		if (tx.create && storeFails(tx.body.end)) || hasEnding(tx.body, "retbig", true) || hasEnding(tx.body, "retmax", true) {
 			cfg += ":codestore-oog" // downstream of a CREATE that failed with ErrCodeStoreOutOfGas and was not reverted
 		}
 		p.report("receipt-logs:"+cfg, fmt.Sprintf("receipt.Logs carries %v, the transaction's surviving LOGs are %v", logTags(res.receipt), want))
 	}
 	if !sameInts(logTags(res.returned), want) && res.err == "ok" {
 		key := "returned-logs:reverted-subframe"
-		if (tx.create && tx.body.end == "retbig") || hasEnding(tx.body, "retbig", true) {
+		if (tx.create && storeFails(tx.body.end)) || hasEnding(tx.body, "retbig", true) || hasEnding(tx.body, "retmax", true) {
 			key = "returned-logs:codestore-oog"
 		}
 		p.report(key, fmt.Sprintf("evm returned logs %v (receipt result JSON), surviving LOGs are %v", logTags(res.returned), want))
@@ -457,6 +585,7 @@ func runReplay(a map[string]string) {
 
 func runLines(h *harness, lines []string, emit func(op, res string)) {
 	var blk *block
+	var nextFork blockCfg
 	var pending []string // rtx lines of a real-loop block, executed at `rend`
 	for _, line := range lines {
 		line = strings.TrimSpace(line)
@@ -494,10 +623,24 @@ func runLines(h *harness, lines []string, emit func(op, res string)) {
 		}
 		res := hx.Guard(func() string {
 			switch t[0] {
+			case "fork":
+				if len(t) != 3 || (t[1] != "mainnet" && t[1] != "robin") {
+					return "bad-op"
+				}
+				hgt, err := strconv.ParseUint(t[2], 10, 64)
+				if err != nil {
+					return "bad-op"
+				}
+				nextFork = blockCfg{sched: t[1], height: hgt}
+				return "ok"
 			case "reset":
 				b, err := parseReset(t)
 				if err != nil {
 					return "bad-op"
+				}
+				if nextFork.sched != "" {
+					b.cfg.sched, b.cfg.height = nextFork.sched, nextFork.height
+					nextFork = blockCfg{}
 				}
 				blk = b
 				return h.reset(b)
@@ -595,18 +738,42 @@ func runSearch(a map[string]string) {
 	byKey := map[string]violation{}
 	classes := map[string]int{}
 	runBlock := func(blk *block, class string) {
-		p.prefix = []string{blk.resetLine()}
+		p.prefix = nil
+		if fl := blk.forkLine(); fl != "" {
+			p.prefix = append(p.prefix, fl)
+		}
+		p.prefix = append(p.prefix, blk.resetLine())
 		h.reset(blk)
+		type kept struct {
+			line, receipt string
+			res           txResult
+		}
+		var retained []kept
 		for _, tx := range blk.txs {
 			tx.blk = blk
 			line := tx.line()
-			res := hx.Guard(func() string { h.runTx(tx); return "" })
+			var r txResult
+			res := hx.Guard(func() string { r = h.runTx(tx); return "" })
 			if strings.HasPrefix(res, "PANIC") {
-				p.viols = append(p.viols, violation{Key: "panic", Desc: res, Replay: map[string]interface{}{"prefix": p.prefix, "ops": []string{line}}})
+				v := violation{Key: "panic", Desc: res, Replay: map[string]interface{}{"prefix": p.prefix, "ops": []string{line}}}
+				p.viols = append(p.viols, v)
+				emitViolation(v)
+			} else {
+				retained = append(retained, kept{line, h.logsStr(r.receipt), r})
 			}
 			p.prefix = append(p.prefix, line)
 			probes++
 			distinct[line] = true
+		}
+		// retention: the log objects handed out in earlier receipts must not have been touched by later
+		// transactions (receipt.Logs aliases the state object's per-hash slice)
+		for _, k := range retained {
+			if now := h.logsStr(k.res.receipt); now != k.receipt {
+				v := violation{Key: "retention:receipt-logs-changed-later", Desc: fmt.Sprintf("receipt logs of `%s` read %s when the transaction ended and %s at the end of the block", k.line, k.receipt, now),
+					Replay: map[string]interface{}{"prefix": p.prefix[:len(p.prefix)-len(blk.txs)], "ops": p.prefix[len(p.prefix)-len(blk.txs):]}}
+				p.viols = append(p.viols, v)
+				emitViolation(v)
+			}
 		}
 		classes[class]++
 		for _, v := range p.viols {
@@ -616,7 +783,7 @@ func runSearch(a map[string]string) {
 		}
 		p.viols = nil
 	}
-	cfgs := []blockCfg{{true, true, true}, {false, true, true}, {true, false, true}, {true, false, false}}
+	cfgs := []blockCfg{{p013: true, p007: true, cbn: true}, {p013: false, p007: true, cbn: true}, {p013: true, p007: false, cbn: true}, {p013: true, p007: false, cbn: false}}
 	// 1. the matrix: frame kind x failure mode x op x depth, and STATICCALL x op x nesting kind x depth
 	type fk struct {
 		kind string
@@ -625,7 +792,7 @@ func runSearch(a map[string]string) {
 	kinds := []fk{
 		{"call", []string{"revert", "invalid", "oog"}}, {"callcode", []string{"revert", "invalid", "oog"}},
 		{"delegatecall", []string{"revert", "invalid", "oog"}}, {"staticcall", []string{"revert", "invalid", "oog", "stop"}},
-		{"create", []string{"revert", "invalid", "oog", "retbig", "rethuge"}}, {"create2", []string{"revert", "invalid", "oog", "retbig", "rethuge"}},
+		{"create", []string{"revert", "invalid", "oog", "retbig", "retmax", "rethuge"}}, {"create2", []string{"revert", "invalid", "oog", "retbig", "retmax", "rethuge"}},
 		{"authcall", []string{"revert", "invalid", "oog"}},
 	}
 	mk := func(g *gen, kind, end string, ops []*act, value int) *act {
@@ -644,6 +811,7 @@ func runSearch(a map[string]string) {
 		return &act{kind: 'C', id: g.id(), ck: kind, addr: "b22", value: value, body: body}
 	}
 	done := false
+	vi := 0
 	for _, cfg := range cfgs[:2] {
 		for _, k := range kinds {
 			for _, end := range k.ends {
@@ -656,6 +824,11 @@ func runSearch(a map[string]string) {
 						value := 0
 						if k.kind == "call" || k.kind == "create" || k.kind == "create2" || k.kind == "authcall" {
 							value = r.Pick(0, 1)
+							if depth == 1 && k.kind != "authcall" {
+								// the caller is b20 (balance 1000): exactly the balance, one more (refused before the snapshot)
+								value = []int{0, 1, 1000, 1001}[vi%4]
+								vi++
+							}
 						}
 						if (k.kind == "create" || k.kind == "create2") && strings.HasPrefix(op, "authcall") {
 							continue
@@ -838,6 +1011,20 @@ func runSearch(a map[string]string) {
 			runBlock(blk, "stake-static")
 		}
 	}
+	// 2d. boundary: the call depth limit; 2e. history / concurrency; 2f. state-root metamorphic probe
+	setSchedule(cfgs[0])
+	for _, extra := range []func() (string, string){depthProbe, func() (string, string) { return historyProbe(r.Fork(), st) }, func() (string, string) { return rootProbe(r.Fork(), st, 40) }} {
+		var key, desc string
+		if pn := hx.Guard(func() string { key, desc = extra(); return "" }); pn != "" {
+			key, desc = "panic", pn
+		}
+		probes++
+		if key != "" {
+			v := violation{Key: key, Desc: desc, Replay: map[string]interface{}{"cmd": "harness/bin/c12 mode=search (deterministic phase)", "detail": desc}}
+			byKey[key] = v
+			emitViolation(v)
+		}
+	}
 	// 2b. STAKE inside a STATICCALL (needs a registered miner account; outside the line protocol)
 	probes++
 	if d := hx.Guard(func() string { return stakeProbe(false) }); d != "" {
@@ -851,7 +1038,16 @@ func runSearch(a map[string]string) {
 	// budget (the deterministic phases above always run to the end) but at least 200 blocks
 	for nr := 0; !done && (nr < 200 || time.Now().Before(deadline)); nr++ {
 		g := newGen(r.Fork(), st)
-		runBlock(g.block(), "random")
+		g.pre002 = true
+		b := g.block()
+		cl := "random"
+		if b.cfg.sched != "" {
+			cl = "random:" + b.cfg.sched
+			if !g.flags.p002 {
+				cl += ":pre002"
+			}
+		}
+		runBlock(b, cl)
 	}
 	keys := make([]string, 0, len(byKey))
 	for k := range byKey {
@@ -859,8 +1055,7 @@ func runSearch(a map[string]string) {
 	}
 	sort.Strings(keys)
 	for _, k := range keys {
-		b, _ := json.Marshal(byKey[k])
-		fmt.Println("VIOL " + string(b))
+		emitViolation(byKey[k])
 	}
 	sj, _ := json.Marshal(map[string]interface{}{"probes": probes, "distinct": len(distinct), "oracle_checks": p.checks, "classes": classes, "violation_classes": keys})
 	fmt.Println("STATS " + string(sj))
